@@ -174,9 +174,10 @@ def parse_element(
     ):
         if keyword in schema:
             schema[keyword] = parser(schema, state)  # type: ignore
-    if not schema.get("properties", True):
-        # An empty `properties` is not serialised: keep the normal form stable.
-        del schema["properties"]
+    for keyword in ("properties", "required"):
+        if not schema.get(keyword, True):
+            # Empty values are not serialised: keep the normal form stable.
+            del schema[keyword]
     schema["additionalProperties"] = _parse_additional_properties(schema, state)
     schema["additionalItems"] = _parse_additional_items(schema, state)
     if set(COMPOSITION_KEYWORDS) & set(schema):
